@@ -99,8 +99,9 @@ def gen_def(rng, i):
         "version": rng.choice([None, None, None, "1", "2", ""]),
         "given": rng.choice([None, None, None, None, "def custom(): pass", ""]),
         "compat": rng.choice([[], [], [], [], [], ["0123abcd"]]),
-        "includes": rng.choice([None, None, [], [1], [2, 1], ["a", 3, {"memory": 1}], [(1, 2), "zz"], [5, 5]]),
-        "override": rng.choice([{}, {}, {"memory": 1}, {"executor": "x", "memory": 4}]),
+        "includes": rng.choice([None, None, [], [1], [2, 1], ["a", 3, {"memory": 1}], [(1, 2), "zz"], [5, 5],
+                                [1, True, 1.0], [0, 0.0], [False, "a"], [2.0]]),
+        "override": rng.choice([{}, {}, {"memory": 1}, {"executor": "x", "memory": 4}, {"memory": 1.0}, {"retries": 0}, {"flag": True}]),
     }
     return d
 
@@ -201,6 +202,19 @@ def taskdef_sx(d, t, labels, extra_digests=()):
 
 
 # ------------------------------------------------------------------ mutations (the property's oracle)
+LOOKALIKE = (int, float, bool)
+LOOK_FAMILIES = [[0, 0.0, -0.0, False], [1, 1.0, True], [2, 2.0]]
+
+
+def look_other(rng, v):
+    """a value that compares equal to `v` under == but is another value (type/sign), if `v` has one; else v + 1000"""
+    for fam in LOOK_FAMILIES:
+        for x in fam:
+            if type(x) is type(v) and repr(x) == repr(v):
+                return rng.choice([y for y in fam if not (type(y) is type(v) and repr(y) == repr(v))])
+    return v + 1000
+
+
 def mutate(rng, d):
     """yield (kind, expect_same, d2)"""
     def w(**kw):
@@ -218,10 +232,19 @@ def mutate(rng, d):
         yield "includes-alter", False, w(includes=[("changed", d["includes"][0])] + d["includes"][1:])
         if len(set(map(repr, d["includes"]))) > 1:
             inc = list(d["includes"])
-            while inc == d["includes"]:
+            while list(map(repr, inc)) == list(map(repr, d["includes"])):     # type-aware: [0, 0.0] == [0.0, 0] under ==
                 rng.shuffle(inc)
             yield "includes-order", True, w(includes=inc)
     yield "override", False, w(override={**d["override"], "memory": 77})
+    # look-alike values (== and hash() equal, different type/sign) are different data
+    for i, v in enumerate(d["includes"] or []):
+        if type(v) in LOOKALIKE:
+            yield "includes-lookalike", False, w(includes=d["includes"][:i] + [look_other(rng, v)] + d["includes"][i + 1:])
+            break
+    for k, v in d["override"].items():
+        if type(v) in LOOKALIKE:
+            yield "override-lookalike", False, w(override={**d["override"], k: look_other(rng, v)})
+            break
     yield "definition-options", True, w(deco_opts={**d["deco_opts"], "memory": 1234, "extra_opt": "z"})
     if d["version"] is None and not d["given"]:
         for st in ("one-line", "multi-line", "extra-decorator"):
